@@ -146,13 +146,27 @@ fn run(case: &Value, tmp: &str) -> Result<(), String> {
     let sh: Vec<usize> = case["shape"].as_array().unwrap().iter().map(|v| v.as_u64().unwrap() as usize).collect();
     let shape = [sh[0], sh[1], sh[2]];
     let kind = case["values"].as_str().unwrap_or("distinct");
-    let unwritable = case["unwritable"].as_bool().unwrap_or(false);
-    let path = if unwritable {
+    let devfull = case["devfull"].as_bool().unwrap_or(false);
+    let unwritable = case["unwritable"].as_bool().unwrap_or(false) || devfull;
+    if devfull {
+        // only a real character device will do (and it must never be removed or replaced by this program)
+        use std::os::unix::fs::FileTypeExt;
+        match std::fs::metadata("/dev/full") {
+            Ok(m) if m.file_type().is_char_device() => {}
+            _ => return Ok(()), // no such device on this host: nothing to replay
+        }
+    }
+    let path = if devfull {
+        // a file that can be created/opened but not written: every write fails with ENOSPC
+        "/dev/full".to_string()
+    } else if unwritable {
         format!("{tmp}/no-such-dir-{}/x/out.file", std::process::id())
     } else {
         format!("{tmp}/io-{}-{}.out", std::process::id(), f)
     };
-    let _ = std::fs::remove_file(&path);
+    if !devfull {
+        let _ = std::fs::remove_file(&path);
+    }
     let mut flat32 = vec![];
     for i in 0..shape[0] {
         for j in 0..shape[1] {
@@ -214,7 +228,9 @@ fn run(case: &Value, tmp: &str) -> Result<(), String> {
         _ => return Err(format!("unknown fn {f}")),
     }
     for (name, save, chk) in &variants {
-        let _ = std::fs::remove_file(&path);
+        if !devfull {
+            let _ = std::fs::remove_file(&path);
+        }
         let res = save(&path);
         if unwritable {
             if res.is_ok() {
@@ -227,7 +243,9 @@ fn run(case: &Value, tmp: &str) -> Result<(), String> {
         }
         chk(&path).map_err(|e| format!("{f}<{name}> shape {:?} {kind}: {e}", shape))?;
     }
-    let _ = std::fs::remove_file(&path);
+    if !devfull {
+        let _ = std::fs::remove_file(&path);
+    }
     let _ = same32(0.0, 0.0);
     Ok(())
 }
